@@ -70,6 +70,12 @@ pub struct EnumResult {
 /// Exhaustively enumerate the schedule tree of `prog` on real Shuttle (up to `cap` executions).
 /// `step_bound` is the FailAfter bound used to turn livelocks into deterministic failures.
 pub fn enumerate(prog: &Arc<Prog>, cap: u64, step_bound: usize, opts: Opts) -> EnumResult {
+    enumerate_capped(prog, cap, u64::MAX, step_bound, opts)
+}
+
+/// `max_failing`: stop (incomplete) after this many failing executions — each costs a fresh Runner.
+pub fn enumerate_capped(prog: &Arc<Prog>, cap: u64, max_failing: u64, step_bound: usize, opts: Opts) -> EnumResult {
+    let mut failing = 0u64;
     let st = EnumScheduler::fresh_state();
     let nt = prog.tasks.len();
     let mut out = EnumResult { outcomes: BTreeMap::new(), executions: 0, complete: false, nondeterminism: None, monitor_failures: vec![], max_depth: 0 };
@@ -86,6 +92,9 @@ pub fn enumerate(prog: &Arc<Prog>, cap: u64, step_bound: usize, opts: Opts) -> E
         let mut logs = sink.take();
         let n = logs.len();
         let failure = r.err().map(|p| payload_str(&*p));
+        if failure.is_some() {
+            failing += 1;
+        }
         let ps: Vec<Vec<usize>> = {
             let mut s = st.lock().unwrap();
             s.snapshot_if_needed();
@@ -112,6 +121,9 @@ pub fn enumerate(prog: &Arc<Prog>, cap: u64, step_bound: usize, opts: Opts) -> E
             break;
         }
         if failure.is_none() && s.executions >= cap {
+            break;
+        }
+        if failing > max_failing {
             break;
         }
         if n == 0 {
